@@ -141,6 +141,14 @@ class Trav:
                     t = t[3][0]
                 if t[0] == "call" and t[1] in NEIGHBOR_ITERS and len(t[3]) > 1:
                     self.pipes.append({"ev": ev, "key": t[1], "of": t[3][1], "stages": list(reversed(stages)), "span": ev["span"]})
+        # any other mutation of the worklist (retain, clear, truncate, drain, ...)
+        self.w_edits = []
+        for ev in an.events:
+            if ev["k"] == "call" and ev["key"] and ev["args"] and not ev["pure"] and not ev["diverges"]:
+                if ev["key"] in POP_KEYS or ev["key"] in PUSH_KEYS or ev["key"] == "core::iter::traits::collect::Extend::extend":
+                    continue
+                if self.W is not None and recv_region(an, ev["args"][0]) == self.W:
+                    self.w_edits.append(ev)
         # returns
         self.rets = []   # (block, stmt idx, term)
         for (b, i), t in an.stmt_terms.items():
@@ -517,6 +525,9 @@ def rule_schema_bfs(crate, prop, tier):
                        "out_neighbors(popped vertex); the BFS schema cannot be applied to it")
             continue
         o.check(True, tr, "shape", "")
+        for ev_ in tr.w_edits:
+            o.check(False, tr, "worklist-edited:" + ev_["key"].split("::")[-1], "the worklist is modified by %s: pending entries other than the "
+                    "popped one can be dropped or reordered" % ev_["key"].split("::")[-1], ev_["span"])
         P = tr.P1
         nl = tr.nloops[0]
         # B4 FIFO
@@ -766,6 +777,28 @@ def extra_conditions(tr, nl, b, allowed):
     return out
 
 
+def writes_into_local(crate, fnpath, L):
+    """element stores into the buffer of local container L of fnpath, in the function itself or in its closures"""
+    from .closures import capture_map
+    out = []
+    an = crate.an(fnpath)
+    bodies = [(an, L)]
+    for cp in crate.prog.children.get(fnpath, []):
+        cl = crate.an(cp)
+        cm = capture_map(crate, cl)
+        if cm is not None:
+            for pr, cr in cm.regmap:
+                if pr == L:
+                    bodies.append((cl, cr))
+    for a, R in bodies:
+        for ev in a.events:
+            if ev["k"] == "store":
+                c, i = store_elem(ev)
+                if (c is not None and region_of_container(c) == R) or ev["region"].startswith(R + "#buf"):
+                    out.append(ev)
+    return out
+
+
 def region_inits(an, R):
     """values assigned to the whole local region R (by an assignment or as the destination of a call)"""
     out = [ev["val"] for ev in an.events if ev["k"] == "store" and ev["region"] == R]
@@ -818,6 +851,9 @@ def rule_schema_dfs(crate, prop, tier):
                        "out_neighbors(popped vertex); the stack-DFS schema cannot be applied to it")
             continue
         o.check(True, tr, "shape", "")
+        for ev_ in tr.w_edits:
+            o.check(False, tr, "worklist-edited:" + ev_["key"].split("::")[-1], "the worklist is modified by %s: pending entries other than the "
+                    "popped one can be dropped or reordered" % ev_["key"].split("::")[-1], ev_["span"])
         P = tr.P1
         u = apply_path(P, pv)
         o.check(tr.pop_key == "alloc::vec::Vec::pop", tr, "D4-lifo-pop", "the worklist is not popped from the top of a stack")
@@ -884,6 +920,13 @@ def rule_schema_dfs(crate, prop, tier):
                 mv = lit[Mn]
                 o.check(mv[0] == "call" and mv[1] == "alloc::vec::from_elem" and const_is(mv[3][0], 0), tr,
                         "D5-nothing-visited", "`new` does not start with an all-false visited array")
+                mL_ = local_region_of_value(mv)
+                if mL_ is None:
+                    cands_ = {var for (var, ver), v in can.term_of.items() if v == mv and var.startswith("L") and var[1:].isdigit()}
+                    mL_ = next(iter(cands_)) if len(cands_) == 1 else None
+                wr_ = writes_into_local(crate, ctor, mL_) if mL_ else []
+                o.check(not wr_, tr, "D5-nothing-visited", "`new` marks vertices visited before the traversal starts (a stack DFS marks "
+                        "on pop: a pre-marked source is never expanded as a child)", wr_[0]["span"] if wr_ else None)
                 wv = lit[Wn]
                 src = None
                 if wv[0] == "site":
@@ -1043,6 +1086,9 @@ def rule_schema_dj(crate, prop, tier):
                        "out_neighbors_weighted(popped vertex); the lazy-deletion Dijkstra schema cannot be applied to it")
             continue
         o.check(True, tr, "shape", "")
+        for ev_ in tr.w_edits:
+            o.check(False, tr, "worklist-edited:" + ev_["key"].split("::")[-1], "the worklist is modified by %s: pending entries other than the "
+                    "popped one can be dropped or reordered" % ev_["key"].split("::")[-1], ev_["span"])
         P = tr.P1
         u = apply_path(P, pv)
         key = mk_field(mk_field(P, "0", 0), "0", 0)     # (Reverse(k), ..).0.0
